@@ -2,6 +2,7 @@ import Proofs.Tokens
 import Proofs.Pagination
 import Proofs.PagLinksApi
 import Proofs.PagLater
+import Proofs.HeadlinesAll
 /-! C10 — pagelink pagination uses the same token scheme as C09; every token it issues is
     `buildToken i path` and is parsed back to the same pair on resume. -/
 namespace Traph.Props
@@ -85,5 +86,32 @@ theorem C10_resume_after_run {s : State} {t : T} (h : Shape s t) (hi : Inv s t) 
   Traph.C10_resume_after_run h hi hlive ops hop hwf hok hall count hc pre x post hG
 
 end Episodes
+
+section EveryHistory
+open Traph State Pag Layout
+/-! ### every history (Proofs/Discipline, SinceClear, ReachableAll, HeadlinesAll) -/
+
+/-- EVERY HISTORY, `clear` and `reopen` included, no request assumed away: the only hypotheses are that byte strings cut into at least one stem (`OpWf`), rule anchors are whole LRUs (`rulesCanonical`, `Canon`) and the caller re-supplies on `reopen` the rules the index carries, as the API requires (`Disciplined`); `clear` acts as a reset (`sinceClear`).  -/
+theorem C10_all {s : State} (hs : Reachable s)
+    (weid : Nat) (ps : List Bytes) (incInt incOut : Bool) (all : List PageLink)
+    (hall : s.webentityPagelinks weid ps false incInt incOut = .ok all) (count : Nat) (hc : 1 ≤ count) :
+    (∃ (chunks : List LinkChunk) (groups : List (List GX)),
+      LinkEpisode s weid ps incInt incOut count none chunks ∧
+      episodeLinks s weid ps incInt incOut count
+        ((linkSources s weid ps incInt incOut).length / count + 1) none = some chunks ∧
+      (chunks.flatMap (·.links)).Perm all ∧
+      groups.flatten = linkSources s weid ps incInt incOut ∧
+      Forall2 (fun (ch : LinkChunk) grp =>
+          ch.links = grp.flatMap (fun x => s.outLinksOfPage weid x.2.1 x.2.2.1 incInt incOut) ∧
+          ch.sourcePages = grp.length) chunks groups ∧
+      (∀ grp ∈ groups.dropLast, grp.length = count) ∧
+      (∀ ch ∈ chunks.dropLast, ch.done = false ∧ ch.sourcePages = count ∧ ch.token.isSome = true) ∧
+      (∃ l, chunks.getLast? = some l ∧ l.done = true ∧ l.token = none ∧ l.sourcePages ≤ count)) ∧
+    (∀ pre x post, gItems s (enumFrom 0 ps) = pre ++ x :: post → ∀ count', 1 ≤ count' →
+      ∃ chunks, LinkEpisode s weid ps incInt incOut count' (some (buildToken x.1 x.2.2.2)) chunks ∧
+        chunks.flatMap (·.links) = post.flatMap (fun y => srcLinks s weid incInt incOut (y.2.1, y.2.2.1))) :=
+  Traph.C10_all hs weid ps incInt incOut all hall count hc
+
+end EveryHistory
 
 end Traph.Props
